@@ -15,6 +15,8 @@ Second audit: the list of `esc_table_spec` has the OCTAL digits only (`\\8` `\\9
 The nest limit is not mirrored (regex compilation is an oracle of the mirror): the check carries it — for limits 0..5 and
 written regexes of nesting depth 0..5 (and the default, depths 248..252) a rule is accepted iff the regex crate on its own builds
 the written regex under that limit.
+Likewise which builder limit `size_limit` / `dfa_size_limit` end on (family limits_in_force): the definition builds iff the regex crate
+builds every rule's wrapped regex with size_limit(s) / dfa_size_limit(d) applied as given, same CompiledTooBig payload, same lexemes.
 Oracle (independent of the mirror): abstract lexer specs are rendered to text in many layouts; the
 implementation must report exactly the abstract rules (order, names, start states, targets, kinds),
 spans that select the names in the text the user wrote, regexes equivalent (regex crate, battery of
@@ -701,6 +703,133 @@ def report(ctx, rec, devs, out, what):
                        "replay_cmd": "echo '%s' | .work/target/release/c11" % rec["line"][:6000]}, known_key=key)
 
 
+# ------------------------------------------------------------------ limits on the compiled regex: size_limit / dfa_size_limit in force
+# regexes of graded compiled size: (template, a text the regex with count k matches, drawn with rng)
+LF_FAMS = [("[a-z]{%d}", lambda rng, k: "".join(rng.choice("abcxyz") for _ in range(k))),
+           ("\\pL{%d}", lambda rng, k: "".join(rng.choice(["a", "é", "ж", "Z", "ß"]) for _ in range(k))),
+           ("(?:ab|cd){%d}", lambda rng, k: "".join(rng.choice(["ab", "cd"]) for _ in range(k)))]
+LF_KS = [1, 2, 3, 5, 8, 12, 20, 30, 50, 80, 120, 200, 300, 500]
+LF_CLASSES = ["neither", "size_limit only", "dfa_size_limit only", "both, size_limit < dfa_size_limit", "both, size_limit > dfa_size_limit"]
+
+
+def lf_config(s, d):
+    if s is None:
+        return LF_CLASSES[0] if d is None else LF_CLASSES[2]
+    return LF_CLASSES[1] if d is None else (LF_CLASSES[3] if s < d else LF_CLASSES[4])
+
+
+def lf_case(rng, fam, k, s, d, route, big=False):
+    """one case: rule `<graded regex> 'T'` + skip rule `_`, the limits s / d (None = not given) given on `route`:
+    str = %grmtools section + from_str; opt = new_with_options, no section; opt_x = new_with_options with a section that
+    gives the two values the other way round (it must be ignored)"""
+    tmpl, gen = LF_FAMS[fam]
+    if fam == 1 and not big:
+        k = min(k, 50)                  # \pL{k}: ~25 kB per repetition
+    w = tmpl % k
+    items = lambda fmt_s, a, fmt_d, b: ([fmt_s % a] if a is not None else []) + ([fmt_d % b] if b is not None else [])
+    sec = lambda a, b: "%%grmtools{%s}\n" % ", ".join(items("size_limit: %d", a, "dfa_size_limit: %d", b)) if (a is not None or b is not None) else ""
+    if s is None and d is None and route == "opt_x":
+        route = "opt"
+    hdr = sec(s, d) if route == "str" else (sec(d, s) if route == "opt_x" else "")
+    text = hdr + "%%\n" + w + " 'T'\n_ ;\n"
+    off0 = len((hdr + "%%\n").encode("utf-8"))
+    offs = [off0, off0 + len((w + " 'T'\n").encode("utf-8"))]
+    m = gen(rng, k)
+    inputs = [m + "_" + gen(rng, k), m[:-1] + "_"]
+    sh = lambda x: "-" if x is None else str(x)
+    line = "lf=%s:%s src=%s w=%s wn=1;0 in=%s" % (sh(s), sh(d), hx(text), hlist([w, "_"]), hlist(inputs))
+    if route != "str":
+        line += " opt=%s" % (",".join(items("size:%d", s, "dfa:%d", d)) or "-")
+    return {"text": text, "written": w, "size_limit": s, "dfa_size_limit": d, "route": route, "offsets": offs, "line": line,
+            "config": lf_config(s, d)}
+
+
+def limits_cases(rng, n):
+    """a deterministic grid (every class of the coverage table is met whatever the seed) + n random cases"""
+    out = []
+    routes = ["str", "opt", "opt_x"]
+    nxt = lambda: routes[len(out) % 3]
+    for fam in range(3):
+        for k in (3, 40):
+            out.append(lf_case(rng, fam, k, None, None, nxt()))
+        for s_ in (1000, 100000):
+            for k in (1, 2, 5, 20, 100):
+                out.append(lf_case(rng, fam, k, s_, None, nxt()))
+        for d_ in (10, 64, 1000):
+            for k in (1, 20, 100):
+                out.append(lf_case(rng, fam, k, None, d_, nxt()))
+        for s_, d_ in ((1000, 100000), (100000, 50), (1000, 50), (100000, 10 ** 6), (3000, 2999), (2999, 3000)):
+            for k in (2, 50):
+                out.append(lf_case(rng, fam, k, s_, d_, nxt()))
+    # larger than the regex crate's default size_limit (10 MiB): refused with or without a dfa_size_limit
+    out.append(lf_case(rng, 1, 300, None, None, "str", big=True))
+    out.append(lf_case(rng, 1, 300, None, 100, "str", big=True))
+    out.append(lf_case(rng, 1, 300, None, 777, "opt", big=True))
+    for _ in range(n):
+        fam = rng.randrange(3)
+        k = rng.choice(LF_KS)
+        c = rng.random()
+        logu = lambda a, b: int(10 ** rng.uniform(a, b))
+        if c < 0.08:
+            s_, d_ = None, None
+        elif c < 0.36:
+            s_, d_ = logu(2, 6.5), None
+        elif c < 0.66:
+            s_, d_ = None, rng.randint(10, 1000)
+        elif c < 0.83:
+            s_, d_ = logu(2, 4.5), logu(5, 7)                 # size_limit < dfa_size_limit
+        else:
+            s_, d_ = logu(3.1, 6.5), rng.randint(10, 1000)   # size_limit > dfa_size_limit
+        out.append(lf_case(rng, fam, k, s_, d_, rng.choice(routes)))
+    return out
+
+
+def judge_limits(rec, out):
+    """(deviations, reference verdict 'built' | 'too-big' | None, compiled size above dfa_size_limit?)"""
+    sec = sections(out)
+    s_, d_ = rec["size_limit"], rec["dfa_size_limit"]
+    info = {"written_regex": rec["written"], "size_limit_given": s_, "dfa_size_limit_given": d_, "route": rec["route"]}
+    lfi, lfr = sec.get("LFI", "").split()[1:], [x.split(":") for x in sec.get("LFR", "").split()[1:]]
+    if not lfi or len(lfr) != 2 or any(x[1] not in ("built", "toobig") for x in lfr):
+        return [("the limits case was not understood (or the reference failed for another reason than size)", None, dict(info, harness=out[:300]))], None, False
+    failing = [(rec["offsets"][int(x[0])], x[2]) for x in lfr if x[1] == "toobig"]
+    ref = "too-big" if failing else "built"
+    above_d = d_ is not None and lfr[0][-1] == "0"
+    devs = []
+    if s_ is not None and any(n != str(s_) for _, n in failing):
+        devs.append(("the reference is off: CompiledTooBig does not carry the size_limit given", None, dict(info, reference=sec["LFR"])))
+    only_dfa_small = d_ is not None and (s_ is None or s_ > d_)
+    if lfi[0] == "PANIC":
+        devs.append(("building the definition panics", None, dict(info, impl=out[:300])))
+    elif lfi[0] == "built":
+        if failing:
+            devs.append(("a specification is accepted although the size_limit in force (given, or the default) rejects a rule's regex: "
+                         "the size_limit given is not the one in force", None, dict(info, reference=sec["LFR"])))
+        else:
+            lx = sec.get("LFX", "").split()[1:]
+            bad = [x for x in lx if x.split("=", 1)[1].split("/")[0] != x.split("=", 1)[1].split("/")[1]]
+            if len(lx) != 2 or bad:
+                devs.append(("lexing under the limits given differs from the reference lexer built with the same limits", None,
+                             dict(info, lexing=(bad or lx)[:2])))
+    else:
+        got = [tuple(x.split(":")) for x in lfi[1:]]
+        exp = [("RegexError", str(o), n) for o, n in failing]
+        if not failing:
+            toobig = [g for g in got if g[0] == "RegexError" and g[2] != "-"]
+            if toobig and only_dfa_small and above_d and all(g[2] == str(d_) for g in toobig):
+                cls = ("valid specification refused with CompiledTooBig(dfa_size_limit): the dfa_size_limit given (a bound on the lazy DFA's cache) "
+                       "is in force as size_limit")
+            elif toobig:
+                cls = "valid specification refused with CompiledTooBig although the regex crate builds every rule under the limits given"
+            else:
+                cls = "valid specification refused although the regex crate builds every rule under the limits given"
+            devs.append((cls, None, dict(info, impl=sec["LFI"][:300], reference=sec["LFR"])))
+        elif got != exp and got != exp[:1]:
+            devs.append(("a rule refused for its compiled size is not reported as RegexError(CompiledTooBig(n)) at its line with the n of the "
+                         "limit in force", None, dict(info, impl=sec["LFI"][:300], expected=exp)))
+    return devs, ref, above_d
+
+
 # ------------------------------------------------------------------ flag probes
 def flag_probe_cases():
     cases = []
@@ -881,6 +1010,33 @@ def run(ctx):
     for rec, out in zip(obs, core.run_lines([exe], [r["line"] for r in obs], env=FAST_WATCHDOG)):
         ctx.count(("observation: " if rec["seen"](out) else "observation no longer reproduces: ") + rec["obs"])
 
+    # ---------------- A3: the limits on the compiled regex; size_limit and dfa_size_limit in force are the ones given, each on its own
+    # (own random stream: the cases of the other families do not depend on this one)
+    import random
+    lrng = random.Random("C11 limits_in_force %d" % ctx.seed)
+    lims = limits_cases(lrng, ctx.n(60, 2900))
+    louts = core.run_lines([exe], [r["line"] for r in lims], env=FAST_WATCHDOG)
+    nbad_lim = n_dfa_below = 0
+    table = {}
+    for rec, out in zip(lims, louts):
+        devs, ref, above_d = judge_limits(rec, out)
+        ctx.case("LF " + rec["line"], True, {"text": rec["text"][:300], "impl": out[:300]})
+        cls = "limits_in_force: %s x %s" % (ref or "?", rec["config"])
+        ctx.count(cls)
+        table[cls] = table.get(cls, 0) + 1
+        if ref == "built" and above_d and not devs:
+            n_dfa_below += 1
+        nbad_lim += len(devs)
+        for c, key, detail in devs:
+            ctx.count("deviation: " + c)
+            ctx.violation({"what": "the limits on the compiled regex in force (size_limit, dfa_size_limit) are the ones given",
+                           "class": c, "detail": detail, "source_text": rec["text"], "route": rec["route"], "impl_output": out[:1500],
+                           "replay_cmd": "echo '%s' | .work/target/release/c11" % rec["line"][:6000]}, known_key=key)
+    ctx.oblige(nbad_lim == 0, "limits in force: builds iff the regex crate builds under the limits given, same CompiledTooBig payload, same lexemes")
+    missing = [c for c in ["limits_in_force: %s x %s" % (r, k) for r in ("built", "too-big") for k in LF_CLASSES] if not table.get(c)]
+    ctx.oblige(not missing and (n_dfa_below >= 10 or nbad_lim > 0), "limits in force: every class met; >= 10 built specs whose dfa_size_limit is below the compiled size")
+    ctx.coverage["limits_in_force"] = dict(table, cases=len(lims), built_with_dfa_size_limit_below_compiled_size=n_dfa_below, classes_missing=missing)
+
     # ---------------- B: implementation vs mirror on generated, mutated and truncated sources
     srcs = []          # (text, opt flags | None)
     for rec in recs[:ctx.n(5000, 40000)]:
@@ -968,6 +1124,11 @@ def run(ctx):
         "limit at all x depths {5, 100, 248..252, 300}: accepted iff the regex crate on its own builds the written regex under the limit "
         "given (for the pure group family also: iff depth <= limit), a rejection is one RegexError at the rule line; for every case with lexing inputs, incl. inputs that begin with text no rule "
         "matches: every emitted lexeme is matched by its rule's regex — compiled on its own — at offset 0 of the remaining input (ANCH); "
+        "limits_in_force (own random stream): regexes of graded compiled size ([a-z]{k}, \\pL{k}, (?:ab|cd){k}, k 1..500) x {size_limit only, "
+        "dfa_size_limit only (10..1000), both with size_limit < and > dfa_size_limit, neither} x {section, new_with_options, new_with_options with a "
+        "section giving the two values the other way round}: the definition builds iff the regex crate, on its own, builds every rule's "
+        "wrapped regex with size_limit(s) if given and dfa_size_limit(d) if given; a refusal is RegexError(CompiledTooBig(n)) at the rule line "
+        "with the reference's n; when built the lexemes of two inputs equal those of a reference lexer with the same limits; "
         "judged against the abstract spec (rules, states, span texts, "
         "regex equivalence on a battery of ~90 strings per case, flag probes lexed against a reference lexer). "
         "B: the same texts plus 3 mutations each (char delete/insert/replace, truncation, duplicated/swapped/indented lines, "
@@ -987,4 +1148,5 @@ def run(ctx):
         "a rule's own match is what the regex crate reports (leftmost-first: `if|iffy` on `iffy` matches `if`); the property's longest match is across rules — the reference lexer of the harness is built directly on the regex crate (observation, audit c11b/1 and c09b/1)",
         "from_str / new_with_options do not report unknown %grmtools keys (CTLexerBuilder and the lrlex binary do); the book spells `allow_wholeline_comment` where the code reads `allow_wholeline_comments` (observations, audit c11b/3): the property speaks about flags GIVEN, an unknown key gives none",
         "StorageT::try_from(rules_len) (documented panic past u32::MAX rules) is not mirrored (C20)",
+        "which builder limit a numeric flag ends on is not in the Coq model (Rule::new is opaque to it): limits_in_force decides it by behaviour: the regex crate's RegexBuilder with size_limit(s) / dfa_size_limit(d) applied as given, on the same wrapped text, is the reference for 'the limit in force' (compiled sizes are the regex crate's own accounting; a dfa_size_limit never makes a build fail)",
     ]
